@@ -330,6 +330,8 @@ pub struct SimGoal<R: Raw> {
     pub comp: Option<(usize, Comp, Vec<f64>, f64)>,
     /// (offset, component kind) redrawn by the `Turn` sampler
     pub turn: Option<(usize, Comp)>,
+    /// Some: the predicate measures with the harness's own metric (target as a flat state)
+    pub hm: Option<(crate::spaces::HMetric, Vec<f64>)>,
 }
 
 impl<R: Raw> SimGoal<R> {
@@ -398,7 +400,11 @@ impl<R: Raw> SimGoal<R> {
 
 impl<R: Raw> Goal<R::StateType> for SimGoal<R> {
     fn is_satisfied(&self, s: &R::StateType) -> bool {
-        let ans = self.inner.distance(&self.target, s) <= self.radius && self.comp_ok(s);
+        let d = match &self.hm {
+            Some((h, t)) => h.d(t, &enc_of::<R>(s)),
+            None => self.inner.distance(&self.target, s),
+        };
+        let ans = d <= self.radius && self.comp_ok(s);
         seam_event(Ev::Sat(enc_of::<R>(s), ans));
         ans
     }
@@ -846,6 +852,7 @@ fn run_typed<R: Raw>(scn: &Scenario, opts: &RunOpts) -> Outcome {
                     let k = p.goal.comp.as_ref().map(|cc| cc.comp).or_else(|| (0..lay.len()).find(|i| ws[*i] == 0.0));
                     k.map(|k| (crate::spaces::comp_offset(&lay, k), lay[k]))
                 },
+                hm: if p.goal.harness_metric { Some((crate::spaces::HMetric::new(&scn.space), p.goal.target.clone())) } else { None },
               });
               goal_cache.borrow_mut().push((pi, g.clone()));
               g
@@ -900,7 +907,7 @@ fn run_typed<R: Raw>(scn: &Scenario, opts: &RunOpts) -> Outcome {
                     checkers.resize(wi + 1, None);
                 }
                 let vc: Arc<dyn StateValidityChecker<S<R>>> = checkers[wi]
-                    .get_or_insert_with(|| Arc::new(SimChecker::<R> { inner: inner.clone(), world: TypedWorld::new(&lay, &scn.worlds[wi]) }))
+                    .get_or_insert_with(|| Arc::new(SimChecker::<R> { inner: inner.clone(), world: TypedWorld::new(&scn.space, &scn.worlds[wi]) }))
                     .clone();
                 match guarded(|| planner.setup(pd, vc)) {
                     Ok(()) => Res::Unit,
